@@ -35,7 +35,8 @@ class Ctx:
         self.seed = seed
         self.rnd = random.Random(seed)
         self.t0 = time.time()
-        self.work = os.path.join(ROOT, '.work', pid)
+        # one scratch directory per process: concurrent runs of the same check must not share it
+        self.work = os.path.join(ROOT, '.work', '%s_%d' % (pid, os.getpid()))
         shutil.rmtree(self.work, ignore_errors=True)
         os.makedirs(self.work, exist_ok=True)
         self.replay_dir = os.path.join(ROOT, 'replays', pid)
